@@ -202,3 +202,17 @@ func TestAnyTypeURL(t *testing.T) {
 		Quick: 3000, Thorough: 60000,
 	})
 }
+
+// Fixed witness of the repaired finding: replayed on every run, a violation if it ever returns.
+func TestKnownFindings(t *testing.T) {
+	if pbt.ReplayPath != "" {
+		t.Skip()
+	}
+	for _, doc := range []string{`type_url: "\200"`, `value: "" type_url: "a\377/google.protobuf.Empty"`} {
+		for _, dyn := range []bool{false, true} {
+			m := newAny(dyn)
+			err := prototext.Unmarshal([]byte(doc), m)
+			pbt.Witness(t, "KF-text-any-typeurl-utf8", err == nil, fmt.Sprintf("prototext.Unmarshal(%q) into Any (dynamic=%v) stores type_url %q", doc, dyn, anyURLOf(m)))
+		}
+	}
+}
